@@ -837,4 +837,3 @@ func (w *world) releasePage(pa uint64) {
 		w.devs[o.dev].used -= o.blk.npages
 	}
 }
-
